@@ -143,8 +143,11 @@ def strategy_factories():
         def f(budget, seed, manager=None):
             kw = dict(fixed)
             if manager is not None:
+                # (documented: with an explicit manager the manager is used as is; a strategy budget that differs
+                #  from the manager's only triggers a warning - half of the objects are built that way)
                 kw["budget_manager"] = manager
-                return cls(budget=None, random_state=seed, **kw)
+                other = None if seed % 2 else (0.9 if (manager.budget or 0.1) < 0.5 else 0.05)
+                return cls(budget=other, random_state=seed, **kw)
             return cls(budget=budget, random_state=seed, **kw)
         return f
 
@@ -184,6 +187,8 @@ def strategy_factories():
 
 
 BASELINES = ("StreamRandomSampling", "StreamRandomSampling(exceed)", "PeriodicSampling")
+# strategies whose query hands the utilities to the budget manager in one query_by_utility call
+ONE_MANAGER_CALL = ("FixedUncertainty", "VariableUncertainty", "RandomVariableUncertainty", "Split", "StreamProbabilisticAL")
 
 
 def make_clf(seed, d=1):
@@ -205,6 +210,12 @@ def _call_query(obj, is_manager, cand, utils, clf, name):
         return res, utils
     if name in BASELINES:
         return obj.query(cand.copy(), return_utilities=True)
+    if name.split("+")[0].startswith("StreamProbabilisticAL") and "(rbf)" not in name and len(cand) and \
+            int(np.asarray(cand, dtype=float)[0, 0]) % 2 == 1:
+        # the documented optional density weights of the candidates (a function of the candidate, so that the same
+        # candidates carry the same weights in every run); the returned utilities must be the weighted ones
+        uw = 0.5 + (np.asarray(cand, dtype=float)[:, 0] % 3) / 2.0
+        return obj.query(cand.copy(), clf=clf, utility_weight=uw, return_utilities=True)
     if "(rbf)" in name:
         # with a metric the strategy fits its own kernel model on (X, y) given to query: training data of a fixed
         # size whose last row is the first candidate of the call (same size, different content from call to call)
@@ -288,6 +299,14 @@ def run(make_obj, is_manager, name, chunks, util_chunks, clf, extra, ids, other,
                       "udig": ids(ab.digest(np.asarray(ua, dtype=float))),
                       "dig": ids(restricted_digest(st, st.keys())),
                       "digr": ids(restricted_digest(st, prev.keys()))}
+                if (not is_manager) and name.split("+")[0].split("(")[0] in ONE_MANAGER_CALL \
+                        and hasattr(obj, "budget_manager_"):
+                    # the strategy's decision is ONE call of its manager on the utilities: asking the (unchanged)
+                    # manager about the RETURNED utilities must give the returned decision - update will be handed
+                    # exactly these utilities
+                    with warnings.catch_warnings():
+                        warnings.simplefilter("ignore")
+                        ev["mres"] = [int(i) + 1 for i in np.asarray(obj.budget_manager_.query_by_utility(ua.copy()))]
                 prev = st
                 events.append(ev)
                 if kind == "real":
